@@ -1,7 +1,7 @@
 """C17 - parse and validation failures come back as errors; validation only gates."""
 import random
 
-from common import coq_options, coq_string, run_driver
+from common import REPO, coq_options, coq_string, run_driver
 import sink
 import structgen
 import wgslgen as W
@@ -113,7 +113,7 @@ def cases(rng, tier):
         seeds.append(sink.sink(rng)["wgsl"])
         seeds.append(W.random_program(rng, pc=(i % 2 == 0)).render())
         seeds.append(structgen.program(rng)["wgsl"])
-    seeds.append(open("/repo/wgsl_to_wgpu/src/data/bindgroup/vertex_fragment.wgsl").read())
+    seeds.append(open(REPO + "/wgsl_to_wgpu/src/data/bindgroup/vertex_fragment.wgsl").read())
     texts = [(s, "valid") for s in rng.sample(seeds, 25)] + [(t, "semantically_invalid") for t in INVALID]
     texts += [(t, "mention_only") for t in MENTION_ONLY]
     for i in range(n):
